@@ -153,7 +153,12 @@ class PydanticConverter:
 
         if self.validate_output:
             self.output_type: type = signature.return_annotation
-            if not issubclass(self.output_type, BaseModel):
+            # annotations like `Optional[int]` or `list[int]` are not classes
+            self.output_is_model = inspect.isclass(self.output_type) and issubclass(
+                self.output_type,
+                BaseModel,
+            )
+            if not self.output_is_model:
                 self.output_pydantic_model = self._generate_output_model(
                     fn.__name__,
                     signature.return_annotation,
@@ -179,7 +184,7 @@ class PydanticConverter:
     def convert_outputs(self, data: FnR) -> str:
         if not self.validate_output:  # there is not type to validate
             return JSON_ENCODER.encode(data)  # fallback to JSON encoding
-        if issubclass(self.output_type, BaseModel):
+        if self.output_is_model:
             if isinstance(data, BaseModel):
                 return data.model_dump_json()
             return self.output_type.model_validate(data).model_dump_json()
@@ -218,7 +223,7 @@ class PydanticV1Converter(PydanticConverter):  # pragma: no cover
     def convert_outputs(self, data: FnR) -> str:
         if not self.validate_output:  # there is not type to validate
             return JSON_ENCODER.encode(data)  # fallback to JSON encoding
-        if issubclass(self.output_type, BaseModel):
+        if self.output_is_model:
             if isinstance(data, BaseModel):
                 return data.json()
             return self.output_type.parse_obj(data).json()
